@@ -325,3 +325,42 @@ def gen_saturate(rng, algo, gen='G-sim-saturate'):
     arrivals.sort(key=lambda a: a[0])
     return dict(gen=gen, algo=algo, tps=tps, over=1 if algo == 'overbook' else 0, multi=1, npools=npools, cpu=cpu, ram=ram,
                 duration=nticks / tps, pipes=pipes, segs=segs, arrivals=arrivals)
+
+
+def gen_abandon(rng, gen='G-sim-overbook-abandon'):
+    """overbook: pipelines with parallel branches of which one always dies (demand above the pool), so that the
+    pipeline is abandoned after three failures WHILE a sibling container of the same pipeline is still running;
+    further pipelines keep arriving, few CPUs, so that every freed CPU matters"""
+    tps = rng.choice([1, 2, 10])
+    npools = rng.choice([1, 1, 2])
+    cpu = rng.choice([2, 2, 3, 4])
+    ram = rng.choice([16, 32, 64])
+    nticks = rng.choice([60, 100, 150])
+    pipes, segs, arrivals = [], [], []
+
+    def op(ticks, mem):
+        return [dict(baseline_cpu_seconds=float(ticks) / tps, cpu_scaling='const', storage_read_gb=0.0, memory_gb=float(mem))]
+    for k in range(rng.randint(1, 3)):
+        nb = rng.randint(2, 3)                      # independent roots: one bad, the others long
+        dag = [[] for _ in range(nb)]
+        ops = [op(rng.randint(1, 3), ram * rng.choice([1.5, 2, 4]))] + [op(rng.randint(8, 25), rng.choice([0.5, 1, 2]))
+                                                                        for _ in range(nb - 1)]
+        if rng.random() < 0.5:                      # a join behind them (never runs)
+            dag.append(list(range(nb)))
+            ops.append(op(2, 1))
+        order = list(range(nb))
+        rng.shuffle(order)
+        dag = [dag[i] for i in order] + dag[nb:]
+        ops = [ops[i] for i in order] + ops[nb:]
+        pipes.append((rng.choice([1, 2, 3]), dag))
+        segs.append(ops)
+        arrivals.append((rng.choice([0, 0, 1, 3]), len(pipes) - 1))
+    for k in range(rng.randint(2, 8)):
+        n = rng.randint(1, 3)
+        dag = [[] for _ in range(n)] if rng.random() < 0.5 else [[j - 1] if j else [] for j in range(n)]
+        pipes.append((rng.choice([1, 2, 3]), dag))
+        segs.append([op(rng.randint(1, 6), rng.choice([0.5, 1, 2])) for _ in range(n)])
+        arrivals.append((rng.randint(0, nticks // 2), len(pipes) - 1))
+    arrivals.sort(key=lambda a: a[0])
+    return dict(gen=gen, algo='overbook', tps=tps, over=1, multi=rng.choice([0, 1]), npools=npools, cpu=cpu, ram=ram,
+                duration=nticks / tps, pipes=pipes, segs=segs, arrivals=arrivals)
